@@ -101,7 +101,7 @@ fn kx_mvec_freeze() {
     core::mem::forget(f);
 }
 
-// @ob props=C01,C03,C02 tier=quick kind=Kbounded bound="allocation size 8" leak=1 fns=BytesMut::freeze,Bytes::drop
+// @ob props=C01,C03,C02 tier=thorough kind=Kbounded bound="allocation size 8" leak=1 timeout=3000 fns=BytesMut::freeze,Bytes::drop
 #[kani::proof]
 #[kani::unwind(10)]
 fn kx_mvec_freeze_then_drop_frees_all() {
